@@ -75,6 +75,23 @@ def expected_read(F, is_opb):
     return ['ok', n, [[[[1, l] for l in c], '>=', 1] for c in F]]
 
 
+def expected_litrows(F, is_opb, tex_labels):
+    """the rows of the LaTeX rendering as literals, from the formula in memory only:
+    (polarity, variable name) per literal; for constraints the coefficient as shown"""
+    def pn(l):
+        return [l > 0, tex_labels[abs(l) - 1]]
+    rows = []
+    for con in F:
+        if is_opb:
+            rows.append(['constraint', [[str(c) if c > 1 else '', pn(l)] for (c, l) in con[:-2]],
+                         '>=' if con[-2] == '>=' else '==', str(con[-1])])
+        elif len(con) == 0:
+            rows.append(['square'])
+        else:
+            rows.append(['clause', [pn(l) for l in con]])
+    return rows
+
+
 def opb_shape_defect(text, n, m):
     """direct check of the shape, as a reader splitting at "\\n" only and as a reader of a file in text mode see it"""
     d = opb_shape_defect1(text, n, m)
@@ -162,6 +179,13 @@ def build(ctx, cnfgen, quick):
         F.add_constraint([(2, 1), (3, -2), (1, -6), (4, -7), (2, -8), '>=', 3])
         return F
     add('named opb variables', 'opb-hand', True, o4)
+    def o5():
+        F = CNF()
+        F.new_variable('\\overline{x}_1')
+        F.new_variable('x_1')
+        F.add_clause([1, -2])
+        return F
+    add('name beginning with \\overline{', 'cnf-hand', False, o5)
     for i, txt in enumerate(c06.BREAK_TEXTS):
         def ob(txt=txt):
             F = OPB(description=txt)
@@ -360,6 +384,8 @@ def run(ctx):
         reqs.append(cmd('print_latex', c['tex_labels'], -1, True, f))
         reqs.append(cmd('formula_lrows', c['tex_labels'], f))
         reqs.append(cmd('rows_of_latex', c['is_opb'], j['snippet'] or ''))
+        reqs.append(cmd('latex_litrows', c['is_opb'], j['snippet'] or ''))
+        reqs.append(cmd('formula_litrows', c['tex_labels'], f))
         for (header, extra, doc, _) in j['docs']:
             reqs.append(cmd('print_latex_document', str(c['F'].header['description']),
                             c06.opt(c06.header_for_model(c['F']) if header else None), extra, c['tex_labels'], f))
@@ -369,6 +395,7 @@ def run(ctx):
         c = j['c']
         F = c['F']
         msnip, mrows, drows = next(reps), next(reps), next(reps)
+        dlits, mlits = next(reps), next(reps)
         descr = dict(formula=c['label'], kind='OPB' if c['is_opb'] else 'CNF', n=c['n'], rows=len(F),
                      constraints=mem_constraints(F, c['is_opb']) if len(F) <= 12 else '%d rows' % len(F), names=c['tex_labels'][:12])
         names_ok = not any(ch.isspace() for nm in c['tex_labels'] for ch in nm)
@@ -398,6 +425,25 @@ def run(ctx):
             ctx.violation('correspondence', 'to_latex() text differs from the model (Latex.v print_latex_string)',
                           dict(input=descr, implementation=j['snippet'][:500], model=(msnip[1][:500] if msnip else None),
                                correspondence='Latex.v print_latex <-> _print_latex'), False, site='to_latex', cls='text-differs')
+        # the same, read as literals: (polarity, variable name) of every literal of every row, against the formula in memory
+        decodable = not any(nm.startswith('\\overline{') for nm in c['tex_labels'])
+        ctx.tally('latex names decodable (none begins with \\overline{)', decodable)
+        try:
+            want_lits = expected_litrows(F, c['is_opb'], c['tex_labels'])
+        except IndexError:
+            want_lits = None
+        if names_ok and decodable and want_lits is not None:
+            ctx.count('latex-literals', c['label'], len(F) > 0)
+            if dlits != [len(F) == 0, [['some', r] for r in want_lits]]:
+                ctx.disagreements_checked += 1
+                bad = next((i for i, (a, b) in enumerate(zip(dlits[1], want_lits)) if a != ['some', b]), None)
+                ctx.violation('counterexample', 'the LaTeX rows do not show the literals of the formula in memory (row %s): polarity or variable name differs' % bad,
+                              dict(input=descr, text=j['snippet'][:600], decoded=dlits[1][bad] if bad is not None else [dlits[0], len(dlits[1])],
+                                   expected=want_lits[bad] if bad is not None else [len(F) == 0, len(want_lits)], theorem='latex_rows_literals'),
+                              True, site='to_latex', cls='literals')
+            elif mlits != ['some', want_lits]:
+                ctx.violation('correspondence', 'formula_litrows (Latex.v) differs from the literal rows computed by the harness',
+                              dict(input=descr, model=mlits, harness=want_lits), False, site='Latex.formula_litrows', cls='differs')
         for (header, extra, doc, dexc) in j['docs']:
             mdoc, mbody = next(reps), next(reps)
             ctx.count('latex-document', (c['label'], header), len(F) > 0)
@@ -405,6 +451,16 @@ def run(ctx):
                 ctx.violation('counterexample', 'writing the LaTeX document raised %s' % dexc[0], dict(input=descr, implementation=dexc), True,
                               site='to_latex_document', cls='raises-' + dexc[0])
                 continue
+            if names_ok and decodable and want_lits is not None and not header:
+                start = doc.find('\\begin{align}')
+                lits = ctx.model.call(Sym('latex_litrows'), c['is_opb'], doc[start:doc.rfind('\\end{document}')] if start >= 0 else '')
+                ctx.count('latex-document-literals', c['label'], len(F) > 0)
+                if lits != [len(F) == 0, [['some', r] for r in want_lits]]:
+                    ctx.disagreements_checked += 1
+                    ctx.violation('counterexample', 'the LaTeX document (35 rows per block) does not show the literals of the formula in memory',
+                                  dict(input=descr, decoded_rows=len(lits[1]), expected_rows=len(want_lits), theorem='latex_rows_literals'), True,
+                                  site='to_latex_document', cls='literals')
+                    continue
             if mdoc != ['some', doc]:
                 ctx.disagreements_checked += 1
                 # does the document still contain the right rows?  decode its align part
